@@ -286,6 +286,90 @@ def r032_conflicts(report, g, A):
     return rule
 
 
+def r033(report, g, lm):
+    """contextual tokens GETPROP / SETPROP pre-empt ID on a look-ahead"""
+    from engine.lexauto import (LexAutomata, ES5_LINE_TERMINATORS,
+                                ES5_WHITESPACE_FIXED, ES5_ZS)
+    rule = report.rule('R03.3', 'GETPROP/SETPROP look-ahead vs grammar '
+                       'context', floor=6)
+    LA = LexAutomata(lm)
+    adj = g.adjacency()
+    iddfa = LA.dfa(lm.rule('ID'))
+    for tname in ('GETPROP', 'SETPROP'):
+        if tname not in g.terminals:
+            continue
+        comp = LA.compiled[lm.rule(tname).name]
+        las = [(pos, d) for pos, d, _ in comp.lookaheads]
+        if len(las) != 1 or not las[0][0]:
+            raise AnalysisError('%s: expected one positive look-ahead'
+                                % tname)
+        lad = las[0][1]
+        word = lm.lexeme(tname)
+
+        def prefix_accepted(s):
+            q = lad.start
+            for c in s:
+                q = lad.step(q, LA.alpha.atom_of_char(c))
+                if q is None:
+                    return False
+                if q in lad.accept:
+                    return True
+            return False
+        # (a) every first token of a property name must be admitted
+        firsts = set()
+        for p in g.productions:
+            if p.rhs and p.rhs[0] == tname and len(p.rhs) > 1:
+                firsts |= g.first_of(p.rhs[1])
+        classes = {}
+        for t in sorted(firsts):
+            lex = lm.lexeme(t)
+            if lex is None:
+                d = LA.dfa(lm.rule(t))
+                w = d.shortest()
+                lex = LA.alpha.word(w)
+                classes.setdefault(t, lex)
+            else:
+                classes.setdefault('identifier-like', lex)
+        for cname, lex in sorted(classes.items()):
+            rule.check(
+                prefix_accepted(' ' + lex),
+                '%s look-ahead rejects %s property names' % (tname, cname),
+                '%s <space> %s' % (word, cname),
+                'a %s property name may follow `%s` in an object literal '
+                'but the look-ahead of t_%s demands an identifier: '
+                '`{%s %s(){}}` is lexed as the identifier `%s` and '
+                'rejected' % (cname, word, tname, word, lex, word),
+                where='lexers/es5.py:t_%s' % tname)
+        ws = ES5_WHITESPACE_FIXED + ES5_ZS + ES5_LINE_TERMINATORS
+        missing = [c for c in ws if not prefix_accepted(c + 'x')]
+        rule.check(
+            not missing, '%s look-ahead white space' % tname,
+            '%s <ES5 white space> name' % word,
+            'ES5 white space / line terminators not admitted between `%s` '
+            'and the property name: %s' % (word, ' '.join(
+                'U+%04X' % ord(c) for c in missing)),
+            where='lexers/es5.py:t_%s' % tname)
+        # (b) what may follow an *identifier* named get/set must not
+        # satisfy the look-ahead
+        for (a, b) in sorted(adj):
+            if a != 'ID':
+                continue
+            lex = lm.lexeme(b)
+            if lex is None or not iddfa.accepts_str(lex):
+                continue
+            rule.check(
+                not prefix_accepted(' ' + lex),
+                '%s look-ahead fires before %s' % (tname, b),
+                'identifier `%s` followed by %s' % (word, b),
+                'the grammar allows an identifier to be followed by `%s`, '
+                'but `%s %s` satisfies the look-ahead of t_%s: the '
+                'identifier `%s` is lexed as %s and `%s %s x` is '
+                'rejected' % (lex, word, lex, tname, word, tname, word,
+                              lex),
+                where='lexers/es5.py:t_%s' % tname)
+    return rule
+
+
 def run(report, index, tier):
     M = models(index)
     g, A = M.grammar, M.actions
@@ -303,6 +387,7 @@ def run(report, index, tier):
     r031_nobf(report, g)
     r031_siblings(report, g, A)
     r032_conflicts(report, g, A)
+    r033(report, g, M.lexmodel)
     rule_skeleton(report, index, 'R03.4',
                   'tree shape: definition skeleton == production RHS')
     report.trusted_base += [
